@@ -237,7 +237,7 @@ func (g *GRE) NextLayerType() gopacket.LayerType {
 }
 
 func (g *GRE) VerifyChecksum() (error, gopacket.ChecksumVerificationResult) {
-	bytes := append(g.Contents, g.Payload...)
+	bytes := headerAndPayload(g.Contents, g.Payload)
 
 	existing := g.Checksum
 	verification := gopacket.ComputeChecksum(bytes, 0)
